@@ -9,13 +9,13 @@ from . import theory as TH
 
 
 def kwbool(v, default):
+  """concrete option value, or None when the option is symbolic (handlers then take the conservative reading)"""
   if v is None:
     return default
   if isinstance(v, VBool):
-    c = v.conc()
-    if c is None:
-      raise Unsupported('symbolic boolean option')
-    return c
+    return v.conc()
+  if isinstance(v, (VOpaque, VRef)):
+    return None
   if isinstance(v, VNone):
     return default
   if isinstance(v, VStr):
@@ -66,7 +66,14 @@ def install(lib, np_):
     finite_opt = opts.get('ensure_all_finite', opts.get('force_all_finite'))
     finite = kwbool(finite_opt, True)
     dtype = opts.get('dtype')
-    dkind = 'numeric' if dtype is None else (dtype.s if isinstance(dtype, VStr) else (None if isinstance(dtype, VNone) else lib.dtype_kind(dtype)))
+    if dtype is None:
+      dkind = 'numeric'
+    elif isinstance(dtype, VStr):
+      dkind = dtype.s
+    elif isinstance(dtype, (VNone, VOpaque, VRef)):
+      dkind = None
+    else:
+      dkind = lib.dtype_kind(dtype)
     p.events.append(('check_array', cx.line(), dict(ensure_2d=ensure_2d, allow_nd=allow_nd, copy=copy, finite=finite,
                                                     dtype=dkind, min_samples=str(z3.simplify(min_s)),
                                                     min_features=str(z3.simplify(min_f)))))
@@ -85,8 +92,8 @@ def install(lib, np_):
       base = None
     elif isinstance(a, VArr):
       a_st = cx.st(a)
-      owner = FRESH if copy else a_st.owner
-      base = None if copy else (a.loc, a_st.version)
+      owner = FRESH if copy is True else a_st.owner
+      base = None if copy is True else (a.loc, a_st.version)
     else:
       if isinstance(a, VNone):
         cx.ex.raise_(p, 'ValueError', what + ' of None')
@@ -95,6 +102,8 @@ def install(lib, np_):
     sh = a_st.shape
     nd = sh.ndim()
     conds = []
+    if ensure_2d is None or allow_nd is None:
+      raise Unsupported('symbolic ensure_2d / allow_nd')
     if ensure_2d:
       conds.append(nd < 2)
     if not allow_nd:
@@ -104,7 +113,9 @@ def install(lib, np_):
     conds = [c for c in conds if c is not None]
     shape_bad = z3.simplify(z3.Or(*conds)) if conds else z3.BoolVal(False)
     cx.may_raise('ValueError', shape_bad, what + ' shape requirements')
-    if finite:
+    if finite is None or finite == 'allow-nan':
+      cx.may_raise('ValueError', None, what + ' non-finite input (option symbolic)')
+    elif finite:
       cx.may_raise('ValueError', TH.nonfinite(a_st.term) if a_st.term is not None else None, what + ' non-finite input')
     if dkind == 'numeric' and a_st.kind == 'O':
       cx.may_raise('ValueError', None, what + ' non-numeric data')
@@ -123,10 +134,13 @@ def install(lib, np_):
   @ext('sklearn.utils.validation.check_X_y',
        'ASSUMED (scikit-learn): check_array on X with the given options; y converted to a 1-D (or 2-D with multi_output) '
        'array of the same numbers; raises ValueError iff X is rejected, y is not 1-D, y contains non-finite values or '
-       'len(X) != len(y)')
+       'len(X) != len(y); raises TypeError iff X is a 0-d array (observed on scikit-learn 1.9.1)')
   def _check_X_y(cx, X, y, **kw):
     p = cx.p
     kwx = {k: v for k, v in kw.items() if k not in ('multi_output', 'y_numeric')}
+    if isinstance(X, VArr):
+      # scikit-learn's consistent-length check has no length for a 0-d array: TypeError, not ValueError
+      cx.may_raise('TypeError', cx.st(X).shape.ndim() == 0, 'check_X_y: singleton array cannot be considered a valid collection')
     r = check_array_core(cx, X, kwx, 'check_X_y')
     if r == []:
       return []
@@ -188,6 +202,69 @@ def install(lib, np_):
     yt = cx.st(y).term if isinstance(y, VArr) else fresh('y', T)
     stt = cx.st(s).term if isinstance(s, VArr) else fresh('s', T)
     return VReal(TH.roc_auc(yt, stt))
+
+  # ------------------------------------------------------------------------- user callables (preprocessor)
+  def opaque_call(cx, f, *args, **kw):
+    """ASSUMED about a user-supplied callable: it may raise any Exception; otherwise it returns an ndarray of
+    rank 0..3 (ranks >= 4 are not explored) that is a function of its argument only (papply)"""
+    p = cx.p
+    cx.may_raise('Exception', None, 'user callable raised')
+    if len(args) != 1 or kw:
+      raise Unsupported('opaque callable with %d args' % len(args))
+    a = args[0]
+    at = cx.st(a).term if isinstance(a, VArr) else fresh('arg', T)
+    p.events.append(('opaque-call', str(f.t)))
+    out = []
+    for r in range(4):
+      q = p.fork() if r < 3 else p
+      dims = [fresh('pd%d' % k, z3.IntSort()) for k in range(r)]
+      for d in dims:
+        q.assume(d >= 0)
+      q.assume(TH.prank(f.t, at) == r)
+      v = q.new_loc(ArrState(TH.papply(f.t, at), Shape(r, dims), 'f', FRESH))
+      out.append((q, v))
+    return out
+  lib.opaque_call = opaque_call
+  lib.assumed['user callable (preprocessor)'] = opaque_call.__doc__.strip()
+
+  @ext('numpy.column_stack', 'ASSUMED: arrays of rank >= 2 are concatenated along axis 1 (rank-1 arrays become columns); ValueError when the other dimensions differ')
+  def _column_stack(cx, seq):
+    p = cx.p
+    if isinstance(seq, VSymList):
+      e = seq.elem
+      if not isinstance(e, VArr):
+        raise Unsupported('column_stack of non-arrays')
+      st = cx.st(e)
+      cx.may_raise('ValueError', None, 'column_stack: dimensions of the stacked arrays differ')
+      if st.shape.rank < 2:
+        dims = [st.shape.dims[0] if st.shape.rank == 1 else z3.IntVal(1), seq.n]
+      else:
+        dims = [st.shape.dims[0], seq.n * st.shape.dims[1]] + list(st.shape.dims[2:])
+      res = cx.new(fresh('cstack', T), [z3.simplify(d) for d in dims], st.kind)
+      # value: column i of the result is element i of the list (stated for the generic index, hence for all)
+      if st.term is not None and st.shape.rank >= 2:
+        rt = cx.st(res).term
+        i = seq.i
+        body = z3.Implies(z3.And(i >= 0, i < seq.n), TH.take1(rt, i) == TH.squeeze1(st.term))
+        p.assume(z3.ForAll([i], body, patterns=[TH.take1(rt, i)]))
+      return res
+    if isinstance(seq, (VList, VTuple)):
+      arrs = seq.items
+      sts = [cx.st(a) for a in arrs]
+      if all(s_.shape.rank == 1 for s_ in sts):
+        n = sts[0].shape.dims[0]
+        for s_ in sts[1:]:
+          cx.may_raise('ValueError', s_.shape.dims[0] != n, 'column_stack length mismatch')
+        term = TH.cstack2(sts[0].term, sts[1].term) if len(sts) == 2 and all(s_.term is not None for s_ in sts) else None
+        return cx.new(term, [n, len(arrs)], promote(*[s_.kind for s_ in sts]))
+      if all(s_.shape.rank == 2 for s_ in sts):
+        n = sts[0].shape.dims[0]
+        tot = sts[0].shape.dims[1]
+        for s_ in sts[1:]:
+          cx.may_raise('ValueError', s_.shape.dims[0] != n, 'column_stack length mismatch')
+          tot = tot + s_.shape.dims[1]
+        return cx.new(None, [n, z3.simplify(tot)], promote(*[s_.kind for s_ in sts]))
+    raise Unsupported('column_stack of %r' % (seq,))
 
   # ------------------------------------------------------------------------------------- numpy constructors
   @ext('numpy.asarray')
